@@ -15,6 +15,8 @@ def faults(pr):
     for path, pairs in pr["file_patterns"]:
         out.append(("remove", path, None))
         out.append(("blank", path, None))
+        out.append(("empty", path, None))
+        out.append(("whitespace", path, None))
         for i in range(len(pairs)):
             out.append(("break_pattern", path, i))
     return out
@@ -26,6 +28,10 @@ def apply_fault(pr, p, fault):
         os.unlink(p.path(path))
     elif kind == "blank":
         p.write_text(path, "nothing that matches\n")
+    elif kind == "empty":
+        p.write_text(path, "")                       # e.g. an empty __init__.py
+    elif kind == "whitespace":
+        p.write_text(path, " \n\t\n\n")
     else:
         # remove the occurrence of one pattern: drop the lines that carry it
         lay = [f for f in pr["layout"] if f["name"] == path][0]
@@ -63,8 +69,8 @@ def run_fault(pr, fault, vcs, dry_first, set_version):
     # a fault that leaves every pattern matched elsewhere in the file is not a fault (break_pattern may remove
     # one of several occurrences only); a successful run is then legitimate
     if code == 0:
-        if fault[0] in ("remove", "blank"):
-            return case, "update exited 0 although file %r is %s" % (fault[1], "missing" if fault[0] == "remove" else "without any match")
+        if fault[0] in ("remove", "blank", "empty", "whitespace"):
+            return case, "update exited 0 although file %r is %s" % (fault[1], "missing" if fault[0] == "remove" else "without any match (%s)" % fault[0])
         # break_pattern: does the pattern really have no match left in its file?  (independent reference regex)
         lay = [f for f in pr["layout"] if f["name"] == fault[1]][0]
         raw = lay["raws"][fault[2]]
@@ -107,6 +113,10 @@ def run(chk, driver, tier):
             del files[fault[1]]
         elif fault[0] == "blank":
             files[fault[1]] = "nothing that matches\n"
+        elif fault[0] == "empty":
+            files[fault[1]] = ""
+        elif fault[0] == "whitespace":
+            files[fault[1]] = " \n\t\n\n"
         else:
             lay = [f for f in pr["layout"] if f["name"] == fault[1]][0]
             occ = projgen.ref_render_raw(lay["raws"][fault[2]], pr["vp"], pr["old_state"])
